@@ -83,7 +83,7 @@ def run(ctx):
                    {"tlc": (mc.counterexample() or mc.out[-3000:])[:6000]})
     cov = mc.coverage_actions()
     for a in ["CopyN", "AddTrailingComma", "DropTrailingComma", "DropOpenParen", "DropCloseParen", "UseStmt"]:
-        if a not in cov or cov[a][1] == 0:
+        if not mc.violated and (a not in cov or cov[a][1] == 0):
             raise ToolError("anti-vacuity: action %s never fired in MC_Fmt (%s)" % (a, cov))
     import re
     m = re.search(r'<<"ACCEPTED-PAIRS", (\d+)>>', mc.out)
